@@ -290,6 +290,13 @@ pub mod shim {
         #[verifier::external_body] fn to_le_bytes_v(self) -> (r: [u8; 16])
             ensures r@.len() == 16 { self.to_le_bytes() }
     }
+    impl BytesShim for u64 { type Out = [u8; 8];
+        #[verifier::external_body] fn to_be_bytes_v(self) -> (r: [u8; 8])
+            ensures r@.len() == 8 { self.to_be_bytes() }
+        #[verifier::external_body] fn to_le_bytes_v(self) -> (r: [u8; 8])
+            ensures r@ == seq![(self % 256) as u8, ((self / 0x100) % 256) as u8, ((self / 0x10000) % 256) as u8, ((self / 0x1000000) % 256) as u8,
+                               ((self / 0x100000000) % 256) as u8, ((self / 0x10000000000) % 256) as u8, ((self / 0x1000000000000) % 256) as u8, (self / 0x100000000000000) as u8] { self.to_le_bytes() }
+    }
     impl BytesShim for u32 { type Out = [u8; 4];
         #[verifier::external_body] fn to_be_bytes_v(self) -> (r: [u8; 4])
             ensures r@ == seq![(self / 16777216) as u8, ((self / 65536) % 256) as u8, ((self / 256) % 256) as u8, (self % 256) as u8] { self.to_be_bytes() }
